@@ -4,8 +4,11 @@
     process_normal_command, handle_exec), the AOF log.  One [Frame] event of one
     connection is one step (single command thread, server.rs:367-422). *)
 From Ferrous Require Import Base.Bytes Generated Model.Resp Model.Types Model.Glob Model.Strings
-  Model.Lists Model.ZSets Model.Streams.
+  Model.Lists Model.ZSets Model.Streams Model.Scan.
 Open Scope Z_scope.
+
+Fixpoint nodup_b (l : list bytes) : list bytes :=
+  match l with [] => [] | x :: r => if bmem x r then nodup_b r else x :: nodup_b r end.
 
 (** ---- small maps keyed by Z ---- *)
 Fixpoint zlookup {A} (k : Z) (l : list (Z * A)) : option A :=
@@ -165,8 +168,11 @@ Definition exec_db (now : Z) (d : db) (name : bytes) (parts : list frame) (oracl
   | None =>
   match exec_zsets now d name parts oracle with
   | Some r => Some r
-  | None => exec_streams now d name parts oracle
-  end end end.
+  | None =>
+  match exec_streams now d name parts oracle with
+  | Some r => Some r
+  | None => exec_scan now d name parts oracle
+  end end end end.
 
 Definition h_randomkey (d : db) (parts : list frame) (oracle : option frame) : frame :=
   if negb (len parts =? 1) then r_err else
@@ -198,6 +204,29 @@ Definition h_auth (s : server) (c : Z) (parts : list frame) : frame * server :=
   end.
 
 Definition mem_name (n : bytes) (l : list bytes) : bool := bmem n l.
+
+(** the verification hook command (cfg ferrous_verif): sweeper control is a no-op for the
+    model (its sweeper runs only on explicit events); INDEX dumps the deadline index *)
+Definition sign01 (o : option Z) (now : Z) : Z :=
+  match o with None => -1 | Some t => if t <=? now then 0 else 1 end.
+Definition index_rows (now : Z) (d : db) : list frame :=
+  let keys := bsort (nodup_b (map fst (d_data d) ++ map fst (d_index d))) in
+  map (fun k => FArray [FBulk k;
+                        FInt (sign01 (match get_entry d k with Some e => e_exp e | None => None end) now);
+                        FInt (sign01 (alookup k (d_index d)) now);
+                        FInt (if amem k (d_data d) then 1 else 0)]) keys.
+Definition h_verif (now : Z) (s : server) (parts : list frame) : frame :=
+  match parts with
+  | [_; FBulk a; FBulk b] =>
+      if beq (upper a) (bs "SWEEP") then r_ok
+      else if beq (upper a) (bs "INDEX") then
+        match parse_usize b with
+        | Some n => FArray (index_rows now (nth (Z.to_nat n) (s_dbs s) empty_db))
+        | None => r_err
+        end
+      else r_err
+  | _ => r_err
+  end.
 
 (** process_normal_command for connection [c] (0 inside EXEC) with database [dbi] *)
 Definition normal_command (now : Z) (s : server) (c : Z) (dbi : Z) (parts : list frame)
@@ -234,6 +263,7 @@ Definition normal_command (now : Z) (s : server) (c : Z) (dbi : Z) (parts : list
       else if beq name (bs "RANDOMKEY") then (h_randomkey (get_db s dbi) parts oracle, s)
       else if beq name (bs "AUTH") then h_auth s 0 parts      (* "AUTH" => self.handle_auth(parts, 0) *)
       else if beq name (bs "QUIT") then (r_ok, s)
+      else if beq name (bs "VERIF") then (h_verif now s parts, s)
       else
         let d := get_db s dbi in
         match exec_db now d name parts oracle with
@@ -244,6 +274,26 @@ Definition normal_command (now : Z) (s : server) (c : Z) (dbi : Z) (parts : list
         end
   | _ => (r_err, s)
   end.
+
+(** ---- the expiry sweeper (engine.rs expiration_cleanup_loop, after the repair 9fbc313) ---- *)
+(** collect phase: keys whose INDEXED deadline has passed *)
+Definition sweep_collect (now : Z) (d : db) : list bytes :=
+  map fst (filter (fun kt => snd kt <=? now) (d_index d)).
+(** delete phase for one collected key: delete only if the STORED deadline has passed;
+    otherwise repair the index entry *)
+Definition sweep_key (now : Z) (dt : db * tracker) (k : bytes) : db * tracker :=
+  let (d, t) := dt in
+  match get_entry d k with
+  | Some e =>
+      if expired now e then (index_del (del_entry d k) k, mark t k)
+      else match e_exp e with
+           | Some t' => (index_set d k t', t)
+           | None => (index_del d k, t)
+           end
+  | None => (index_del d k, t)
+  end.
+Definition sweep_delete (now : Z) (d : db) (t : tracker) (ks : list bytes) : db * tracker :=
+  fold_left (sweep_key now) ks (d, t).
 
 (** was_modified_since: the counter moved, or the stored entry has expired *)
 Definition was_modified_since (now : Z) (s : server) (dbi : Z) (k : bytes) (baseline : Z) : bool :=
